@@ -111,7 +111,16 @@ def main(argv=None):
         confirmed = workers.confirm(mod.__name__, [v["case"] for v in to_confirm])
         for v, got in zip(to_confirm, confirmed):
             if not any(g["sig"] == v["sig"] for g in got):
-                harness_errors.append((v, got))
+                # not reproducible from the case alone: is it reproducible as part of its shard's sequence?
+                if v.get("_shard") is not None and workers.confirm_in_shard(mod.__name__, v["_shard"], v["sig"]):
+                    old = v["sig"]
+                    new = old + "/only-after-earlier-cases-in-the-same-process"
+                    for w in by_sig[old]:
+                        w["sig"] = new
+                        w["case"] = {"_history_dependent": True, "shard": v["_shard"], "signature": old, "case": w["case"]}
+                    by_sig[new] = by_sig.pop(old)
+                else:
+                    harness_errors.append((v, got))
 
     known, fixed = load_known(prop)
     new_sigs = [s for s in by_sig if s not in known]
@@ -216,7 +225,11 @@ def main(argv=None):
 def do_replay(mod, prop, path):
     data = json.load(open(path))
     case = data.get("case", data)
-    got = mod.replay(case)
+    if isinstance(case, dict) and case.get("_history_dependent"):
+        ok = workers.confirm_in_shard(mod.__name__, case["shard"], case["signature"])
+        got = [{"sig": case["signature"] + "/only-after-earlier-cases-in-the-same-process", "detail": "reproduced by re-running the shard " + json.dumps(case["shard"])[:200]}] if ok else []
+    else:
+        got = mod.replay(case)
     known, _ = load_known(prop)
     if not got:
         print(f"[{prop}] replay {path}: property holds on this case")
